@@ -39,6 +39,24 @@ DESC = {
            "a newline inside a payload followed, in the same read, by the real terminator and a query"),
  "C13-a": ("C13", "String::replace (alloc) used to double embedded quotes in string responses",
            "a string response containing a double quote"),
+ "C02-c": ("C02", "header walk keeps visited nodes in a bounded vector and 'drops the oldest' with swap_remove(0), so from 10 mnemonics on the returned header path is two levels too high",
+           "a declared command at least ten levels deep, followed by ';' and a relative unit"),
+ "C04-c": ("C04", "capacity guard of heapless::Vec's write_char is off by one (len + n < N)",
+           "responses plus the terminating newline fill the fixed-capacity writer exactly (run into heapless::Vec<u8,N>, or one message answering exactly N bytes under process::<N>)"),
+ "C05-c": ("C05", "Node::child folds the name into a 12 byte stack buffer; the 12 character limit for common commands is checked without the '*'",
+           "'*' followed by exactly 12 mnemonic characters of which at least one is lower case"),
+ "C06-c": ("C06", "parameters beyond the tenth are parsed and silently dropped instead of ending the parse with an error",
+           "a command declared with exactly 10 parameters called with 11 or more: handler runs with the first ten, no error"),
+ "C07-c": ("C07", "empty reads skipped and the 'buffer full, discard' check only made when the new data holds no terminator",
+           "a message larger than N with a newline inside its payload within the first N bytes, and the read that fills the buffer contains that newline: process spins"),
+ "C08-c": ("C08", "block length field folded into a u8 accumulator",
+           "a definite-length block of 256 bytes or more (panic with overflow checks, truncated payload without)"),
+ "C09-c": ("C09", "run_from inspects the result of execute only after an early 'continue' taken by unterminated common commands",
+           "an execution-level error of a common command (*RST 1) that is followed by ';': the error never reaches the handler/queue"),
+ "C10-c": ("C10", "response written and flushed only if the response buffer is not full",
+           "a message whose complete answers total exactly N bytes under process::<N>"),
+ "C13-c": ("C13", "Node::child upper-cases names longer than 16 bytes through to_ascii_uppercase() (a Vec)",
+           "a declared mnemonic longer than 16 characters and an input mnemonic of exactly that length at the same tree level"),
  "C13-b": ("C13", "String::from_utf8_lossy in the quoted-string recogniser",
            "a closed quoted string containing invalid UTF-8"),
 }
